@@ -132,6 +132,11 @@ func (g *gen) list(safe bool, depth, lvl int, linky bool) {
 			g.list(safe, depth, lvl+1, linky)
 		}
 		g.b.WriteString("</li>")
+		if lvl < 3 && g.r.Pct(12) {
+			// a list as a direct child of a list (no <li> around it): not valid, but common and
+			// accepted by every parser; items before and after it must survive
+			g.list(safe, depth, lvl+1, linky)
+		}
 	}
 	g.b.WriteString("</" + tag + ">")
 }
